@@ -15,7 +15,7 @@ CLAIMS = {
          "Every generated or enumerated operand pair is evaluated under + - * / in both spellings and compared bit-for-bit with the exact real result rounded by an independent posit-standard rounding routine. P8 is decided completely (all 2^16 pairs), P16 completely in the thorough tier (all 2^32 pairs), P32 by structured generation (ties built backwards from thresholds, result-scale stratification, extreme-regime and sparse-fraction lattices).",
          "DESIGN.md section 6, C01"),
  "C02": ("property-based testing: proptest float-pattern generators (threshold lattice, specials, stratified exponents) + complete f32 enumeration (both tiers) against the exact dyadic reference oracle; metamorphic from_f32(x)==from_f64(x as f64)",
-         "Every generated or enumerated f32/f64 bit pattern is converted to the three posit types through from_f32/from_f64 and the From impls and compared bit-for-bit with the posit rounding of the float's exact value; every 9- and 17-bit rounding threshold is placed exactly (+-1 ulp) as f64; all 2^32 f32 patterns in both tiers.",
+         "Every generated or enumerated f32/f64 bit pattern is converted to the three posit types through from_f32/from_f64, the From impls and the num_traits spellings (FromPrimitive::from_f32/from_f64, NumCast::from) and compared bit-for-bit with the posit rounding of the float's exact value; every 9- and 17-bit rounding threshold is placed exactly (+-1 ulp) as f64; all 2^32 f32 patterns in both tiers.",
          "DESIGN.md section 6, C02"),
  "C03": ("property-based testing: complete enumeration (P8, P16 and all 2^32 P32 patterns in both tiers) + proptest patterns; oracle = independent decoder value, round-trip identities",
          "to_f64/to_f32 of every pattern compared with the exact value from an independent decoder; f64 and Display/FromStr round trips must return the original bits. Complete for P8/P16 and for all 2^32 P32 patterns (float parts) in both tiers.",
